@@ -25,11 +25,15 @@ CFG = {
     "level_note": (
         "Trusted: Coq kernel + vm_compute; the hand model tied by this run's correspondence; the Go harness (generators, recover "
         "wrappers, printing of case terms). No axioms; case_accept is pure correspondence (no '&& holds' fallback). Left out / "
-        "abstracted: the traversal of ONE 64-bit word (table scan above sparseMagic members, ctz/clz loop below) is modelled by "
-        "its result 'the first n set positions in the direction'; for the forward direction c09_word_iter_forward proves that "
-        "C08's mirrored loops (Bit64.iter_fwd: both branches, every threshold) compute exactly this list, the reverse direction "
-        "of one word rests on the correspondence (every reverse iteration observed is compared); the 16-word loop around it "
-        "(break, cursor, left) and the list loop over blocks are modelled and proved (one shared iter_loop lemma). Errors are compared as error / no error (the "
+        "abstracted: the traversal of ONE 64-bit word (table scan above sparseMagic members, ctz/clz loop below) is written in "
+        "C09_Model.v by its result 'the first n set positions in the direction'; c09_iterators_c08 proves, through C08's "
+        "iter64_spec / iter1024_spec (C08_Iter.v), that C08's loop-by-loop model of Bit64.IterAsT / RIterAsT and of the Bit1024 "
+        "chain writes exactly this list - both directions, every element type, every threshold (c09_word_iter_forward is the "
+        "older forward-only bridge to Bit64.v); the 16-word loop and the list loop over blocks are also modelled and proved "
+        "here (one shared iter_loop lemma). Concurrency: the property's functions are pure functions of receiver and "
+        "arguments; the 'conc' class runs them from 8 goroutines on goroutine-owned values and every divergent observation "
+        "is an ordinary case (an interleaving-dependent defect such as shared scratch state is found by repetition, not by "
+        "proof - the model has no notion of shared state). Errors are compared as error / no error (the "
         "message text is not an observable of the property); nil and the empty slice are not distinguished; after a refused "
         "Unmarshal the partially filled receiver is not compared. Negative iteration counts panic in make([]T, n) (model: Panic; "
         "the monitor puts no requirement there). Bit1024.Unmarshal into a NON-fresh bitmap (sparse form ORs into it) is outside "
@@ -43,8 +47,11 @@ CFG = {
         "least one member); unmarshal = arbitrary bytes through Bit1024.Unmarshal / NewBigU32FromData / NewU32BitTipFromData "
         "(non-trivial: non-empty string); big / tip = constructor from an integer, 0..12 further integers offered, Start, "
         "forward and reverse iteration with one count (non-trivial: integer accepted and count > 0); bigs / tips = list of 0..5 "
-        "blocks, per-block and list iterations (non-trivial: at least two blocks, a member, count > 0); distinct = distinct "
-        "Coq case term (inputs and observations)"
+        "blocks, per-block and list iterations (non-trivial: at least two blocks, a member, count > 0); topbit = the same four "
+        "block entry points on words of 9/10/11/33/64 members including bits 63 and 0, in word 0 / 7 / 15, counts below / at / "
+        "above what reaches the word, under sparseMagic 9, 0 and 64; conc = marshal round trips and block / list calls made by "
+        "8 goroutines at once on goroutine-owned values (every observation differing from the single-threaded one, plus the "
+        "last observation of every goroutine); distinct = distinct Coq case term (inputs and observations) plus threshold / goroutine"
     ),
     "trusted": [
         "per-word traversal Bit64.IterAs*/RIterAs* abstracted to 'first n set positions in the direction' (proved for the forward direction in C08's Bit64.v; observed here through every iteration result)",
